@@ -10,6 +10,7 @@ from .lib.core import cstr, cnat, clist, cbool
 
 LIST_FORMATS = ['txt', 'md', 'csv', 'json', 'dot']
 DIFF_FORMATS = ['txt', 'md', 'csv', 'dot']
+XFORMATS = ('txt', 'md', 'csv', 'json', 'dot')
 
 
 def c_entries_full(o):
@@ -88,7 +89,7 @@ def main(tier):
                 metas.append((cid, W, W2, d1, d2))
             outs = h.run(cmds)
             per = len(LIST_FORMATS) + len(DIFF_FORMATS)
-            lcases, dcases, tcases, xcases, x3cases, ddcases, xinfo, info = [], [], [], [], [], [], {}, {}
+            lcases, dcases, tcases, xcases, x3cases, xdcases, ddcases, xinfo, info = [], [], [], [], [], [], [], {}, {}
             for j, (cid, W, W2, d1, d2) in enumerate(metas):
                 lo = dict(zip(LIST_FORMATS, outs[per * j: per * j + len(LIST_FORMATS)]))
                 do = dict(zip(DIFF_FORMATS, outs[per * j + len(LIST_FORMATS): per * (j + 1)]))
@@ -167,11 +168,11 @@ def main(tier):
             for cid, W in xw:
                 dx = h.dir_for('x%d' % cid)
                 gen.write_dir(dx, [m for m, _ in gen.docs(W)])
-                for f in ('txt', 'md', 'csv', 'json'):
+                for f in XFORMATS:
                     xcmds.append({'id': 'x', 'cmd': 'list', 'dir': dx, 'format': f, 'exposure': True, 'want_out': True})
             xouts = h.run(xcmds)
             for j, (cid, W) in enumerate(xw):
-                xo = dict(zip(('txt', 'md', 'csv', 'json'), xouts[4 * j: 4 * j + 4]))
+                xo = dict(zip(XFORMATS, xouts[len(XFORMATS) * j: len(XFORMATS) * (j + 1)]))
                 run.count(1)
                 if xo['txt']['outcome'] != 'ok':
                     continue
@@ -182,6 +183,9 @@ def main(tier):
                     run.dist('exposure-bytes:md+csv+json')
                     x3cases.append('(mkXFmt3 %s %s %s %s %s %s)' % (cnat(cid), c_entries_full(xo['txt']), c_xpeers(xo['txt']), cstr(xo['md'].get('out', '')),
                                                                    cstr(xo['csv'].get('out', '')), cstr(xo['json'].get('out', ''))))
+                if xo['dot']['outcome'] == 'ok':
+                    run.dist('exposure-bytes:dot')
+                    xdcases.append('(mkXDot %s %s %s %s %s)' % (cnat(cid), c_entries_full(xo['dot']), c_dpeers(xo['dot']), c_xpeers(xo['dot']), cstr(xo['dot'].get('out', ''))))
                 xinfo[cid] = (payload, xo)
                 want_rows, want_unprot = fmt.api_exposure_rows(xo['txt'])
                 if len(want_rows) >= 3:
@@ -218,14 +222,15 @@ def main(tier):
             run.cov['traces_validated_against_impl'] += len(metas)
             if k == 0 and metas:
                 run.sample({'list_txt': info[metas[0][0]][1]['txt'].get('out', '')[:600]})
-            text = ['From Coq Require Import List ZArith String.', 'From NP Require Import IntervalSet ConnSet World Build Connlist Diff Format DiffDot XFormat XFormatMore RowInj DiffInj.',
+            text = ['From Coq Require Import List ZArith String.', 'From NP Require Import IntervalSet ConnSet World Build Connlist Diff Format DiffDot XFormat XFormatMore XDot RowInj DiffInj.',
                     'Import ListNotations.', 'Open Scope Z_scope.', 'Definition lcases : list fmt_case := [', ';\n'.join(lcases), '].',
                     'Definition dcases : list dfmt_case := [', ';\n'.join(dcases), '].',
                     'Definition xcases : list xfmt_case := [', ';\n'.join(xcases), '].', 'Definition XM := Eval vm_compute in xfmt_mismatches xcases.',
                     'Definition ddcases : list ddot_case := [', ';\n'.join(ddcases), '].', 'Definition DDM := Eval vm_compute in ddot_mismatches ddcases.',
+                    'Definition xdcases : list xdot_case := [', ';\n'.join(xdcases), '].', 'Definition XDM := Eval vm_compute in xdot_mismatches xdcases.',
                     'Definition x3cases : list xfmt3_case := [', ';\n'.join(x3cases), '].', 'Definition X3M := Eval vm_compute in xfmt3_mismatches x3cases.',
                     'Definition tcases : list dot_case := [', ';\n'.join(tcases), '].', 'Definition TM := Eval vm_compute in dot_mismatches tcases.',
-                    'Definition MM := Eval vm_compute in fmt_mismatches lcases.', 'Definition DM := Eval vm_compute in dfmt_mismatches dcases.', 'Definition PM := Eval vm_compute in printable_mismatches lcases.', 'Definition DPM := Eval vm_compute in dprintable_mismatches dcases.', 'Print MM.', 'Print DM.', 'Print PM.', 'Print TM.', 'Print XM.', 'Print X3M.', 'Print DDM.', 'Print DPM.']
+                    'Definition MM := Eval vm_compute in fmt_mismatches lcases.', 'Definition DM := Eval vm_compute in dfmt_mismatches dcases.', 'Definition PM := Eval vm_compute in printable_mismatches lcases.', 'Definition DPM := Eval vm_compute in dprintable_mismatches dcases.', 'Print MM.', 'Print DM.', 'Print PM.', 'Print TM.', 'Print XM.', 'Print X3M.', 'Print DDM.', 'Print DPM.', 'Print XDM.']
             rc, out, err = core.run_coq_text('\n'.join(text))
             if rc != 0:
                 raise RuntimeError('coqc on format cases failed: ' + err[-1500:])
@@ -245,6 +250,17 @@ def main(tier):
                 else:
                     run.report(None, 'xbytes-txt-%d' % cid, dict(payload, format='txt', output=xo['txt'].get('out'), exposure=xo['txt'].get('exposure')),
                                'list --exposure txt output differs byte-wise from the exposure-format model applied to the API result')
+            xdm = core.parse_pairs(out, 'XDM')
+            if xdm is None:
+                raise RuntimeError('no XDM in coqc output')
+            for cid, code in xdm[:4]:
+                payload, xo = xinfo[cid]
+                if code == 9:
+                    run.report(None, 'xnodes-%d' % cid, dict(payload, format='dot', output=xo['dot'].get('out'), exposure=xo['dot'].get('exposure')),
+                               'two exposure entries share a dot node name but not its label / namespace: which one is drawn depends on the order they are met in')
+                else:
+                    run.report(None, 'xbytes-dot-%d' % cid, dict(payload, format='dot', output=xo['dot'].get('out'), exposure=xo['dot'].get('exposure')),
+                               'list --exposure dot output differs byte-wise from the exposure-format model applied to the API result')
             dpm = core.parse_pairs(out, 'DPM')
             if dpm is None:
                 raise RuntimeError('no DPM in coqc output')
